@@ -557,8 +557,51 @@ macro_rules! server_prop {
             fn check(case: &ServerCase) -> Outcome {
                 check_server(case, $which)
             }
+            fn from_bytes(data: &[u8]) -> Option<ServerCase> {
+                server_case_from_bytes(data)
+            }
         }
     };
+}
+
+/// fuzzer input: 8 selector bytes (config variants, address, state) + the raw datagram
+pub fn server_case_from_bytes(data: &[u8]) -> Option<ServerCase> {
+    if data.len() < 8 {
+        return None;
+    }
+    let (sel, rest) = data.split_at(8);
+    let pool = subnet_pool();
+    let pick = |b: u8| pool[b as usize % pool.len()].to_string();
+    let cfg = CfgSpec {
+        deny: if sel[0] & 1 != 0 { vec![pick(sel[1])] } else { vec![] },
+        deny_is_deny: sel[0] & 2 != 0,
+        allow: if sel[0] & 4 != 0 { vec![pick(sel[2]), pick(sel[1].wrapping_add(7))] } else { vec!["0.0.0.0/0".into(), "::/0".into()] },
+        allow_is_deny: sel[0] & 8 != 0,
+        require_nts: match sel[0] >> 4 & 3 { 0 | 1 => None, 2 => Some(false), _ => Some(true) },
+        accepted: if sel[0] & 0x40 != 0 { sel[3] & 7 } else { 7 },
+    };
+    let state = StateSpec {
+        stratum: (sel[4] % 16) + 1,
+        leap: sel[4] >> 5,
+        refid: u32::from_be_bytes([sel[5], sel[6], sel[7], sel[3]]),
+        root_delay: (sel[5] as i64) << 24,
+        var_base: (sel[6] as f64) * 1e-6,
+        var_linear: if sel[7] & 1 != 0 { -1e-9 } else { 1e-9 },
+        var_quadratic: (sel[7] >> 1) as f64 * 1e-12,
+        var_cubic: 0.0,
+        var_base_time: u64::from_be_bytes([sel[1], sel[2], sel[3], sel[4], 0, 0, 0, 0]),
+        precision_exp: -((sel[6] % 30) as i8) - 1,
+        bloom_ids: sel[2] % 3,
+    };
+    let addr = if sel[3] & 0x80 != 0 { AddrSpec::V6(u64::from_be_bytes([0x20, 0x01, 0x0d, 0xb8, sel[1], sel[2], 0, 0]), sel[5] as u64) } else { AddrSpec::V4(u32::from_be_bytes([10, sel[1] & 3, sel[2] & 3, sel[5]])) };
+    Some(ServerCase {
+        cfg,
+        state,
+        history: sel[5] % 3,
+        initial_rotations: sel[6] % 3,
+        key_seed: sel[7] as u64,
+        reqs: vec![ReqItem { addr, recv_ts: u64::from_be_bytes([sel[0], sel[1], sel[2], sel[3], sel[4], sel[5], sel[6], sel[7]]), now_ts: 0x1234_5678_9abc_def0, rotate_before: false, req: ReqSpec::Raw(rest[..rest.len().min(1024)].to_vec()) }],
+    })
 }
 
 server_prop!(C15, "C15", Which::C15, 60_000, 3_000_000, 4,
